@@ -7,7 +7,8 @@ from harness.build import run_py
 from harness.common import extract_json, extract_printed, plain
 
 
-def design_and_table(chk, sc, module, cfg, driver, label=None, workers=4, table_args=(), timeout=900):
+def design_and_table(chk, sc, module, cfg, driver, label=None, workers=4, table_args=(), timeout=900, mode="table",
+                     keyfn=None):
     """Run TLC on module/cfg (which also prints the evaluation table), replay the table with the driver."""
     res = chk.add_tlc(label or module, tlc.run(module, cfg, sc.sub("d_" + (label or module)), workers=workers,
                                                timeout=timeout))
@@ -19,7 +20,7 @@ def design_and_table(chk, sc, module, cfg, driver, label=None, workers=4, table_
         return None
     tpath = os.path.join(sc.dir, "table_%s.json" % (label or module))
     json.dump(tabs[0], open(tpath, "w"))
-    r = run_py(sc, ["-m", driver, "table", tpath] + list(table_args), timeout=timeout)
+    r = run_py(sc, ["-m", driver, mode, tpath] + list(table_args), timeout=timeout)
     if r.returncode != 0 and _is_machinery(r.stderr):
         chk.machinery("driver %s failed to start: %s" % (driver, r.stderr[-800:]))
         return tabs[0]
@@ -30,7 +31,8 @@ def design_and_table(chk, sc, module, cfg, driver, label=None, workers=4, table_
     chk.evaluations += s["evaluations"]
     chk.traces += 1
     for f in s["fails"]:
-        chk.violation("replay:%s" % f["what"], "real code differs from %s.tla on the exact lattice: %s" % (module, f["what"]), f)
+        key = keyfn(f) if keyfn else "replay:%s" % f["what"]
+        chk.violation(key, "real code differs from %s.tla on the exact lattice: %s" % (module, f["what"]), f)
     return tabs[0]
 
 
